@@ -1,7 +1,7 @@
-(* C05_Full.v — proofs about the FULL model [xmodel] of C05_Model.v: every answer a
+(* C05_Full.v — proofs about the FULL model [xmodel_native] of C05_Model.v: every answer a
    validator can give (error with or without results, short and overlong result
    vectors, nil entries, annotations), the value of the signing time, the verifier
-   without a validator; the refinement [model] = projection of [xmodel]; and the
+   without a validator; the refinement [model] = projection of [xmodel_native]; and the
    pre-fix variant [xmodel_v0] (before /repo commit d78db00). *)
 From NV Require Import Base C05_Model C05_Proofs.
 
@@ -111,29 +111,29 @@ Proof.
   rewrite (find_combine_none p rs chain Hl E) in He. discriminate.
 Qed.
 
-(* ---------- xmodel, by cases ---------- *)
+(* ---------- xmodel_native, by cases ---------- *)
 Lemma action_eq_dec (a b : action) : {a = b} + {a <> b}.
 Proof. decide equality. Qed.
 
-Lemma xmodel_skip x : x_action x = Skip -> xmodel x = mk_xobs [] None false false.
-Proof. intros H. unfold xmodel. now rewrite H. Qed.
+Lemma xmodel_skip x : x_action x = Skip -> xmodel_native x = mk_xobs [] None false false.
+Proof. intros H. unfold xmodel_native. now rewrite H. Qed.
 
 Lemma xmodel_novalidator x : x_action x <> Skip -> x_val x = 4%N ->
-  xmodel x = mk_xobs [] (Some Inconclusive) (enforce_fails (x_action x) Inconclusive) false.
-Proof. intros Ha Hv. unfold xmodel. rewrite Hv. destruct (x_action x); try congruence; reflexivity. Qed.
+  xmodel_native x = mk_xobs [] (Some Inconclusive) (enforce_fails (x_action x) Inconclusive) false.
+Proof. intros Ha Hv. unfold xmodel_native. rewrite Hv. destruct (x_action x); try congruence; reflexivity. Qed.
 
 Lemma xmodel_err x : x_action x <> Skip -> x_val x <> 4%N -> x_err x = true ->
-  xmodel x = mk_xobs (xcalls x) (Some Inconclusive) (enforce_fails (x_action x) Inconclusive) false.
+  xmodel_native x = mk_xobs (xcalls x) (Some Inconclusive) (enforce_fails (x_action x) Inconclusive) false.
 Proof.
-  intros Ha Hv He. unfold xmodel. apply N.eqb_neq in Hv. rewrite Hv, He.
+  intros Ha Hv He. unfold xmodel_native. apply N.eqb_neq in Hv. rewrite Hv, He.
   destruct (x_action x); try congruence; reflexivity.
 Qed.
 
 Lemma xmodel_incomplete x : x_action x <> Skip -> x_val x <> 4%N -> x_err x = false ->
   complete x = false ->
-  xmodel x = mk_xobs (xcalls x) (Some Inconclusive) (enforce_fails (x_action x) Inconclusive) false.
+  xmodel_native x = mk_xobs (xcalls x) (Some Inconclusive) (enforce_fails (x_action x) Inconclusive) false.
 Proof.
-  intros Ha Hv He Hc. unfold xmodel. apply N.eqb_neq in Hv. rewrite Hv, He, Hc.
+  intros Ha Hv He Hc. unfold xmodel_native. apply N.eqb_neq in Hv. rewrite Hv, He, Hc.
   destruct (x_action x); try congruence; reflexivity.
 Qed.
 
@@ -165,18 +165,18 @@ Qed.
 
 Lemma xmodel_answer x : x_action x <> Skip -> x_val x <> 4%N -> x_err x = false ->
   complete x = true ->
-  xmodel x =
+  xmodel_native x =
     let res := classify (verdict (combine (xresults x) (x_chain x))) in
     mk_xobs (xcalls x) (Some res) (enforce_fails (x_action x) res) false.
 Proof.
-  intros Ha Hv He Hc. unfold xmodel. apply N.eqb_neq in Hv. rewrite Hv, He, Hc. cbn [negb].
+  intros Ha Hv He Hc. unfold xmodel_native. apply N.eqb_neq in Hv. rewrite Hv, He, Hc. cbn [negb].
   rewrite final_is_verdict by (rewrite (proj2 (complete_lengths _ Hc)); lia).
   destruct (x_action x); try congruence; reflexivity.
 Qed.
 
 (* the shape of every observation of a step that is entered *)
 Lemma xmodel_cases x : x_action x <> Skip ->
-  exists calls c, xmodel x = mk_xobs calls (Some c) (enforce_fails (x_action x) c) false.
+  exists calls c, xmodel_native x = mk_xobs calls (Some c) (enforce_fails (x_action x) c) false.
 Proof.
   intros Ha.
   destruct (N.eq_dec (x_val x) 4) as [Hv|Hv]; [rewrite (xmodel_novalidator _ Ha Hv); eauto|].
@@ -235,7 +235,7 @@ Qed.
 (* ---------- the statements used by props/C05_Property.v ---------- *)
 
 Lemma xpass_iff x : x_action x <> Skip ->
-  (xo_result (xmodel x) = Some Pass <->
+  (xo_result (xmodel_native x) = Some Pass <->
    x_val x <> 4%N /\ x_err x = false /\
    List.length (x_results x) = List.length (x_chain x) /\ Forall entry_ok (x_results x)).
 Proof.
@@ -259,7 +259,7 @@ Qed.
 (* the clause as worded, with NO hypothesis on the answer: every certificate of the chain has a
    result and it is OK / non-revokable *)
 Lemma xpass_only_if x : x_action x <> Skip ->
-  xo_result (xmodel x) = Some Pass ->
+  xo_result (xmodel_native x) = Some Pass ->
   forall k s, nth_error (x_chain x) k = Some s ->
     exists c, nth_error (x_results x) k = Some (Some c) /\ cr_ok c.
 Proof.
@@ -273,18 +273,18 @@ Qed.
 
 Lemma xpass_if x : x_action x <> Skip -> x_val x <> 4%N -> x_err x = false ->
   List.length (x_results x) = List.length (x_chain x) -> Forall entry_ok (x_results x) ->
-  xo_result (xmodel x) = Some Pass /\ xo_rejected (xmodel x) = false /\ xo_panic (xmodel x) = false.
+  xo_result (xmodel_native x) = Some Pass /\ xo_rejected (xmodel_native x) = false /\ xo_panic (xmodel_native x) = false.
 Proof.
   intros Ha Hv He Hl Hf.
-  assert (Hp : xo_result (xmodel x) = Some Pass) by (apply (xpass_iff _ Ha); repeat split; auto).
+  assert (Hp : xo_result (xmodel_native x) = Some Pass) by (apply (xpass_iff _ Ha); repeat split; auto).
   split; [exact Hp|]. destruct (xmodel_cases _ Ha) as (calls & c & E). rewrite E in *. cbn in *.
   inversion Hp; subst c. destruct (x_action x); auto.
 Qed.
 
 (* an answer that is not exactly one non-nil result per certificate is inconclusive *)
 Lemma xincomplete x : x_action x <> Skip -> x_err x = false -> complete x = false ->
-  xo_result (xmodel x) = Some Inconclusive /\ xo_panic (xmodel x) = false /\
-  xo_rejected (xmodel x) = match x_action x with Enforce => true | _ => false end.
+  xo_result (xmodel_native x) = Some Inconclusive /\ xo_panic (xmodel_native x) = false /\
+  xo_rejected (xmodel_native x) = match x_action x with Enforce => true | _ => false end.
 Proof.
   intros Ha He Hc. destruct (N.eq_dec (x_val x) 4) as [Hv|Hv].
   - rewrite (xmodel_novalidator _ Ha Hv). cbn. destruct (x_action x); auto.
@@ -301,7 +301,7 @@ Proof.
     rewrite forallb_forall in E. specialize (E _ H). discriminate.
 Qed.
 
-Lemma xnever_panics x : xo_panic (xmodel x) = false.
+Lemma xnever_panics x : xo_panic (xmodel_native x) = false.
 Proof.
   destruct (action_eq_dec (x_action x) Skip) as [Ea|Ha]; [now rewrite (xmodel_skip _ Ea)|].
   destruct (xmodel_cases _ Ha) as (calls & c & E). now rewrite E.
@@ -312,7 +312,7 @@ Lemma xrevoked x : x_action x <> Skip -> x_val x <> 4%N -> x_err x = false -> co
   exists k s, nth_error (xresults x) k = Some RRevoked /\
               (forall j, j < k -> nth_error (xresults x) j <> Some RRevoked) /\
               nth_error (x_chain x) k = Some s /\
-              xo_result (xmodel x) = Some (Revoked s).
+              xo_result (xmodel_native x) = Some (Revoked s).
 Proof.
   intros Ha Hv He Hc Hin. rewrite (xmodel_answer _ Ha Hv He Hc). cbv zeta. cbn [xo_result].
   assert (Hl' : List.length (xresults x) <= List.length (x_chain x)) by (rewrite (proj2 (complete_lengths _ Hc)); lia).
@@ -330,7 +330,7 @@ Lemma xunknown x : x_action x <> Skip -> x_val x <> 4%N -> x_err x = false -> co
   exists k r s, nth_error (xresults x) k = Some r /\ is_ok r = false /\ r <> RRevoked /\
                 (forall j r', j < k -> nth_error (xresults x) j = Some r' -> is_ok r' = true) /\
                 nth_error (x_chain x) k = Some s /\
-                xo_result (xmodel x) = Some (Unknown s).
+                xo_result (xmodel_native x) = Some (Unknown s).
 Proof.
   intros Ha Hv He Hc Hn Hr. rewrite (xmodel_answer _ Ha Hv He Hc). cbv zeta. cbn [xo_result].
   assert (Hl' : List.length (xresults x) <= List.length (x_chain x)) by (rewrite (proj2 (complete_lengths _ Hc)); lia).
@@ -361,8 +361,8 @@ Proof.
 Qed.
 
 Lemma xvalidator_error x : x_action x <> Skip -> x_err x = true ->
-  xo_result (xmodel x) = Some Inconclusive /\ xo_panic (xmodel x) = false /\
-  xo_rejected (xmodel x) = match x_action x with Enforce => true | _ => false end.
+  xo_result (xmodel_native x) = Some Inconclusive /\ xo_panic (xmodel_native x) = false /\
+  xo_rejected (xmodel_native x) = match x_action x with Enforce => true | _ => false end.
 Proof.
   intros Ha He. destruct (N.eq_dec (x_val x) 4) as [Hv|Hv].
   - rewrite (xmodel_novalidator _ Ha Hv). cbn. destruct (x_action x); auto.
@@ -370,12 +370,12 @@ Proof.
 Qed.
 
 Lemma xno_validator x : x_action x <> Skip -> x_val x = 4%N ->
-  xo_calls (xmodel x) = [] /\ xo_result (xmodel x) = Some Inconclusive /\
-  xo_rejected (xmodel x) = match x_action x with Enforce => true | _ => false end.
+  xo_calls (xmodel_native x) = [] /\ xo_result (xmodel_native x) = Some Inconclusive /\
+  xo_rejected (xmodel_native x) = match x_action x with Enforce => true | _ => false end.
 Proof. intros Ha Hv. rewrite (xmodel_novalidator _ Ha Hv). cbn. destruct (x_action x); auto. Qed.
 
 Lemma xo_calls_model x : x_action x <> Skip ->
-  xo_calls (xmodel x) = if (x_val x =? 4)%N then [] else xcalls x.
+  xo_calls (xmodel_native x) = if (x_val x =? 4)%N then [] else xcalls x.
 Proof.
   intros Ha.
   destruct (N.eq_dec (x_val x) 4) as [Hv|Hv]; [rewrite (xmodel_novalidator _ Ha Hv), Hv; reflexivity|].
@@ -388,7 +388,7 @@ Qed.
 
 (* the consultation does not depend on the answer *)
 Lemma xarguments x : x_action x <> Skip -> (x_val x = 1 \/ x_val x = 2 \/ x_val x = 3)%N ->
-  xo_calls (xmodel x) =
+  xo_calls (xmodel_native x) =
     [mk_xcall (if (x_val x =? 2)%N then 2 else 1) (x_chain x) (if x_sa x then x_stime x else None)].
 Proof.
   intros Ha Hv. rewrite (xo_calls_model _ Ha). unfold xcalls, xtime.
@@ -397,7 +397,7 @@ Qed.
 
 (* a result entry exists exactly when the step is entered *)
 Lemma xresult_some_iff x :
-  (exists c, xo_result (xmodel x) = Some c) <-> x_action x <> Skip.
+  (exists c, xo_result (xmodel_native x) = Some c) <-> x_action x <> Skip.
 Proof.
   destruct (action_eq_dec (x_action x) Skip) as [Ea|Ha].
   { rewrite (xmodel_skip _ Ea). cbn. split; [intros [c H]; discriminate | congruence]. }
@@ -405,8 +405,8 @@ Proof.
 Qed.
 
 Lemma xrejected_iff x :
-  xo_rejected (xmodel x) = true <->
-  x_action x = Enforce /\ exists c, xo_result (xmodel x) = Some c /\ c <> Pass.
+  xo_rejected (xmodel_native x) = true <->
+  x_action x = Enforce /\ exists c, xo_result (xmodel_native x) = Some c /\ c <> Pass.
 Proof.
   destruct (action_eq_dec (x_action x) Skip) as [Ea|Ha].
   { rewrite (xmodel_skip _ Ea). cbn. split; [discriminate | intros [H _]; congruence]. }
@@ -419,24 +419,24 @@ Qed.
 (* fail closed at the level of Verify: under enforce the signature gets through the
    revocation step exactly when the revocation validation passes *)
 Lemma xaccept_iff x : x_action x = Enforce ->
-  (xo_rejected (xmodel x) = false /\ xo_panic (xmodel x) = false <-> xo_result (xmodel x) = Some Pass).
+  (xo_rejected (xmodel_native x) = false /\ xo_panic (xmodel_native x) = false <-> xo_result (xmodel_native x) = Some Pass).
 Proof.
   intros Ea. assert (Ha : x_action x <> Skip) by congruence. split.
   - intros [Hr _].
     destruct (proj2 (xresult_some_iff x) Ha) as [c Hc]. destruct c; try exact Hc; exfalso.
-    all: assert (Ht : xo_rejected (xmodel x) = true)
+    all: assert (Ht : xo_rejected (xmodel_native x) = true)
       by (apply xrejected_iff; split; [exact Ea|]; eexists; split; [exact Hc | discriminate]).
     all: congruence.
   - intros Hp. split; [|apply xnever_panics].
-    destruct (xo_rejected (xmodel x)) eqn:E; [exfalso|reflexivity].
+    destruct (xo_rejected (xmodel_native x)) eqn:E; [exfalso|reflexivity].
     apply xrejected_iff in E. destruct E as [_ (c & Hc & Hn)]. congruence.
 Qed.
 
 Lemma xlog_reports x : x_action x = Log ->
-  xo_rejected (xmodel x) = false /\ exists c, xo_result (xmodel x) = Some c.
+  xo_rejected (xmodel_native x) = false /\ exists c, xo_result (xmodel_native x) = Some c.
 Proof.
   intros Ea. split.
-  - destruct (xo_rejected (xmodel x)) eqn:E; [exfalso|reflexivity].
+  - destruct (xo_rejected (xmodel_native x)) eqn:E; [exfalso|reflexivity].
     apply xrejected_iff in E. destruct E as [H _]. congruence.
   - apply xresult_some_iff. congruence.
 Qed.
@@ -459,18 +459,18 @@ Lemma xindependent x y :
   x_action x = x_action y -> x_sa x = x_sa y -> x_val x = x_val y -> x_stime x = x_stime y ->
   x_chain x = x_chain y -> x_err x = x_err y ->
   view (x_results x) = view (x_results y) ->
-  xmodel x = xmodel y.
+  xmodel_native x = xmodel_native y.
 Proof.
   intros H1 H2 H3 H4 H5 H6 H7. destruct (view_determines _ _ H7) as (A & B & C).
-  unfold xmodel, xcalls, xtime, complete, xresults.
+  unfold xmodel_native, xcalls, xtime, complete, xresults.
   now rewrite H1, H2, H3, H4, H5, H6, A, B, C.
 Qed.
 
 (* an error makes the accompanying results irrelevant *)
 Lemma xerror_ignores_results x rs' : x_err x = true ->
-  xmodel x = xmodel (mk_xinput (x_action x) (x_sa x) (x_val x) (x_stime x) (x_chain x) true rs').
+  xmodel_native x = xmodel_native (mk_xinput (x_action x) (x_sa x) (x_val x) (x_stime x) (x_chain x) true rs').
 Proof.
-  intros He. unfold xmodel, xcalls, xtime. cbn. rewrite He. reflexivity.
+  intros He. unfold xmodel_native, xcalls, xtime. cbn. rewrite He. reflexivity.
 Qed.
 
 (* ---------- the model meets the oracle on EVERY input ---------- *)
@@ -487,32 +487,32 @@ Qed.
 Lemma optz_eqb_refl o : optz_eqb o o = true.
 Proof. destruct o; cbn; [apply Z.eqb_refl | reflexivity]. Qed.
 
-Lemma xcalls_ok_model x : x_action x <> Skip -> xcalls_ok x (xo_calls (xmodel x)) = true.
+Lemma xcalls_ok_model x : x_action x <> Skip -> xcalls_ok_native x (xo_calls (xmodel_native x)) = true.
 Proof.
   intros Ha. rewrite (xo_calls_model _ Ha).
   assert (Hs : list_eqb String.eqb (x_chain x) (x_chain x) = true)
     by (apply (list_eqb_spec String.eqb String.eqb_eq); reflexivity).
-  unfold xcalls_ok, xcalls, xtime.
+  unfold xcalls_ok_native, xcalls, xtime.
   destruct (x_val x) as [|[[[|[]|]|[]|]|[[]|[]|]|]] eqn:Ev; cbn;
     rewrite ?Hs, ?optz_eqb_refl; reflexivity.
 Qed.
 
-Lemma xmodel_spec_ok x : xspec_ok x (xmodel x) = true.
+Lemma xmodel_spec_ok x : xspec_ok_native x (xmodel_native x) = true.
 Proof.
-  unfold xspec_ok. rewrite xnever_panics. cbn [negb andb].
+  unfold xspec_ok_native. rewrite xnever_panics. cbn [negb andb].
   destruct (x_action x) eqn:Ea; [| | rewrite (xmodel_skip _ Ea); reflexivity].
   all: assert (Ha : x_action x <> Skip) by congruence.
   all: rewrite (xcalls_ok_model _ Ha); cbn [andb].
   all: destruct (N.eq_dec (x_val x) 4) as [Hv|Hv];
-    [ rewrite (xmodel_novalidator _ Ha Hv); unfold xresult_ok; rewrite Hv, Ea; reflexivity |].
+    [ rewrite (xmodel_novalidator _ Ha Hv); unfold xresult_ok_native; rewrite Hv, Ea; reflexivity |].
   all: destruct (x_err x) eqn:He;
-    [ rewrite (xmodel_err _ Ha Hv He); unfold xresult_ok; rewrite He, Ea, orb_true_r; reflexivity |].
+    [ rewrite (xmodel_err _ Ha Hv He); unfold xresult_ok_native; rewrite He, Ea, orb_true_r; reflexivity |].
   all: destruct (complete x) eqn:Hc;
-    [| rewrite (xmodel_incomplete _ Ha Hv He Hc); unfold xresult_ok; rewrite Hc, Ea, orb_true_r; reflexivity ].
+    [| rewrite (xmodel_incomplete _ Ha Hv He Hc); unfold xresult_ok_native; rewrite Hc, Ea, orb_true_r; reflexivity ].
   all: assert (Hl' : List.length (xresults x) <= List.length (x_chain x)) by (rewrite (proj2 (complete_lengths _ Hc)); lia).
   all: rewrite (xmodel_answer _ Ha Hv He Hc), Ea; cbv zeta; cbn [xo_result xo_rejected];
        rewrite eqb_reflx, andb_true_r.
-  all: unfold xresult_ok; apply N.eqb_neq in Hv; rewrite Hv, He, Hc; cbn [orb negb].
+  all: unfold xresult_ok_native; apply N.eqb_neq in Hv; rewrite Hv, He, Hc; cbn [orb negb].
   all: destruct (forallb is_ok (xresults x)) eqn:E1;
     [ apply (verdict_pass_iff _ _ Hl') in E1; now rewrite E1 |].
   all: destruct (existsb is_revoked (xresults x)) eqn:E2.
@@ -541,7 +541,7 @@ Proof.
        (eapply xnamed_ok; [exact H1 | exact H2 | reflexivity]).
 Qed.
 
-(* ---------- [model] is the projection of [xmodel] ---------- *)
+(* ---------- [model] is the projection of [xmodel_native] ---------- *)
 Definition call_of_x (k : xcall) : call :=
   mk_call (xk_which k) (xk_chain k) (match xk_time k with Some _ => true | None => false end).
 
@@ -568,12 +568,12 @@ Qed.
 Lemma xmodel_refines_model i t err rs :
   (i_val i <= 3)%N -> vout_matches (i_vout i) err rs ->
   let x := mk_xinput (i_action i) (i_sa i) (i_val i) (Some t) (i_chain i) err rs in
-  obs_of_x (xmodel x) = model i.
+  obs_of_x (xmodel_native x) = model i.
 Proof.
   intros Hv Hm x.
   assert (Hv4 : (i_val i =? 4)%N = false) by (apply N.eqb_neq; lia).
-  unfold xmodel, model, x, xcalls, xtime, obs_of_x, xresults, complete.
-  cbn [x_action x_val x_err x_results x_chain x_sa x_stime].
+  unfold xmodel_native, model, x, xcalls, xtime, obs_of_x, xresults, complete.
+  cbn [mk_xinput x_action x_val x_err x_results x_chain x_sa x_stime].
   rewrite Hv4.
   destruct (i_vout i) as [|r] eqn:Ev; cbn in Hm.
   - subst err. destruct (i_action i); cbn;
@@ -590,7 +590,7 @@ Lemma xpass_only_if_v0_refuted :
             xo_result (xmodel_v0 x) = Some Pass /\ xo_rejected (xmodel_v0 x) = false /\ xo_panic (xmodel_v0 x) = false /\
             (exists k s, nth_error (x_chain x) k = Some s /\ nth_error (x_results x) k = None) /\
             (* the fixed code on the same input *)
-            xo_result (xmodel x) = Some Inconclusive /\ xo_rejected (xmodel x) = true.
+            xo_result (xmodel_native x) = Some Inconclusive /\ xo_rejected (xmodel_native x) = true.
 Proof.
   exists (mk_xinput Enforce false 1 (Some 1700000000%Z) ["leaf"; "root"] false []).
   repeat split. exists 0, "leaf". split; reflexivity.
@@ -618,9 +618,9 @@ Proof.
 Qed.
 
 (* the fix changes nothing for a validator that keeps the contract *)
-Lemma xfix_conservative x : xwf x = true -> xmodel x = xmodel_v0 x.
+Lemma xfix_conservative x : xwf x = true -> xmodel_native x = xmodel_v0 x.
 Proof.
-  unfold xwf, xmodel, xmodel_v0. destruct (x_err x) eqn:He; cbn [orb].
+  unfold xwf, xmodel_native, xmodel_v0. destruct (x_err x) eqn:He; cbn [orb].
   - intros _. reflexivity.
   - intros Hc. rewrite Hc. cbn [negb].
     assert (E : Nat.ltb (List.length (x_chain x)) (List.length (x_results x)) || negb (forallb is_some (x_results x)) = false).
@@ -631,8 +631,8 @@ Qed.
 
 Lemma xincomplete_answer x : x_action x <> Skip -> x_err x = false ->
   (List.length (x_results x) <> List.length (x_chain x) \/ In None (x_results x)) ->
-  xo_result (xmodel x) = Some Inconclusive /\ xo_panic (xmodel x) = false /\
-  xo_rejected (xmodel x) = match x_action x with Enforce => true | _ => false end.
+  xo_result (xmodel_native x) = Some Inconclusive /\ xo_panic (xmodel_native x) = false /\
+  xo_rejected (xmodel_native x) = match x_action x with Enforce => true | _ => false end.
 Proof. intros Ha He H. apply (xincomplete x Ha He). apply complete_false_iff. exact H. Qed.
 
 Lemma complete_meaning x :
@@ -655,9 +655,181 @@ Proof. destruct a, b; cbn; discriminate. Qed.
 
 Lemma selection_matches_xmodel a b x :
   x_action x <> Skip -> x_val x = val_of_options a b -> (a || b = true) ->
-  map (fun k => Some (xk_which k)) (xo_calls (xmodel x)) = [consulted (set_revocation a b)].
+  map (fun k => Some (xk_which k)) (xo_calls (xmodel_native x)) = [consulted (set_revocation a b)].
 Proof.
   intros Ha Hv Hab.
   assert (H : (x_val x = 1 \/ x_val x = 2 \/ x_val x = 3)%N) by (rewrite Hv; destruct a, b; cbn in *; auto; discriminate).
   rewrite (xarguments _ Ha H), Hv. destruct a, b; cbn in *; try reflexivity; discriminate.
+Qed.
+
+(* ====================================================================== *)
+(* Who owns the revocation check ([owner], [xmodel] = routing of processSignature around
+   [xmodel_native]). Everything above is about [xmodel_native], the step as notation performs it;
+   [xmodel_notation] transfers it to [xmodel] whenever no plugin owns the check. *)
+
+Lemma xmodel_notation x : owner x = OwnerNotation -> xmodel x = xmodel_native x.
+Proof. intros H. unfold xmodel. rewrite H. reflexivity. Qed.
+
+Lemma xspec_notation x o : owner x = OwnerNotation -> xspec_ok x o = xspec_ok_native x o.
+Proof. intros H. unfold xspec_ok. rewrite H. reflexivity. Qed.
+
+Lemma owner_mk_xinput a sa v st ch e rs : owner (mk_xinput a sa v st ch e rs) = OwnerNotation.
+Proof. reflexivity. Qed.
+
+Lemma existsb_In_pcap (f : pcap -> bool) l : existsb f l = true <-> exists c, In c l /\ f c = true.
+Proof. apply existsb_exists. Qed.
+
+(* what the three owners mean, in terms of the capability list *)
+Lemma owner_meaning x :
+  (owner x = OwnerNotation <->
+     x_plugin x = None \/ exists p, x_plugin x = Some p /\ In PcapTI (xp_caps p) /\ ~ In PcapRev (xp_caps p)) /\
+  (owner x = OwnerPlugin <-> exists p, x_plugin x = Some p /\ In PcapRev (xp_caps p)) /\
+  (owner x = OwnerNobody <-> exists p, x_plugin x = Some p /\ forall c, In c (xp_caps p) -> c = PcapOther).
+Proof.
+  unfold owner. destruct (x_plugin x) as [p|].
+  2:{ repeat split; try discriminate; auto; intros [p [H _]]; discriminate. }
+  assert (V : existsb pcap_is_verifier (xp_caps p) = true <-> In PcapTI (xp_caps p) \/ In PcapRev (xp_caps p)).
+  { rewrite existsb_exists. split.
+    - intros [c [Hin Hc]]. destruct c; try discriminate; auto.
+    - intros [H|H]; eexists; (split; [exact H|reflexivity]). }
+  assert (R : existsb pcap_is_rev (xp_caps p) = true <-> In PcapRev (xp_caps p)).
+  { rewrite existsb_exists. split.
+    - intros [c [Hin Hc]]. destruct c; try discriminate; auto.
+    - intros H; eexists; (split; [exact H|reflexivity]). }
+  destruct (existsb pcap_is_verifier (xp_caps p)) eqn:Ev; cbn [negb].
+  - destruct (existsb pcap_is_rev (xp_caps p)) eqn:Er.
+    + pose proof (proj1 R eq_refl) as HR. repeat split; try discriminate.
+      * intros [H|[q [E [_ N]]]]; [discriminate|inversion E; subst; contradiction].
+      * intros _. eauto.
+      * intros [q [E A]]. inversion E; subst q. specialize (A _ HR). discriminate.
+    + assert (NR : ~ In PcapRev (xp_caps p)) by (intros H; apply R in H; discriminate).
+      repeat split; try discriminate.
+      * intros _. right. exists p. repeat split; auto. destruct (proj1 V eq_refl); [assumption|contradiction].
+      * intros [q [E A]]. inversion E; subst q. contradiction.
+      * intros [q [E A]]. inversion E; subst q. destruct (proj1 V eq_refl) as [H|H]; specialize (A _ H); discriminate.
+  - assert (NV : ~ (In PcapTI (xp_caps p) \/ In PcapRev (xp_caps p))) by (intros H; apply V in H; discriminate).
+    repeat split; try discriminate.
+    + intros [H|[q [E [T _]]]]; [discriminate|inversion E; subst q; tauto].
+    + intros [q [E T]]. inversion E; subst q. tauto.
+    + intros _. exists p. split; [reflexivity|]. intros c Hc. destruct c; try reflexivity; exfalso; tauto.
+Qed.
+
+Lemma plugin_owns_owner x : plugin_owns_revocation x = true -> owner x = OwnerPlugin.
+Proof.
+  unfold plugin_owns_revocation, owner. destruct (x_plugin x) as [p|]; [|discriminate]. intros H.
+  assert (V : existsb pcap_is_verifier (xp_caps p) = true).
+  { apply existsb_exists in H. destruct H as [c [Hin Hc]]. apply existsb_exists. exists c. split; [exact Hin|].
+    destruct c; try discriminate; reflexivity. }
+  rewrite V, H. reflexivity.
+Qed.
+
+Lemma owner_plugin_owns x : owner x = OwnerPlugin <-> plugin_owns_revocation x = true.
+Proof.
+  split; [|apply plugin_owns_owner]. unfold plugin_owns_revocation, owner.
+  destruct (x_plugin x) as [p|]; [|discriminate].
+  destruct (existsb pcap_is_verifier (xp_caps p)); cbn [negb]; [|discriminate].
+  destruct (existsb pcap_is_rev (xp_caps p)); [reflexivity|discriminate].
+Qed.
+
+(* a plugin that owns the check: the validator is not consulted, the plugin's verdict decides *)
+Lemma xplugin_owns x : owner x = OwnerPlugin ->
+  xo_calls (xmodel x) = [] /\ xo_panic (xmodel x) = false /\
+  (x_action x = Skip -> xo_result (xmodel x) = None /\ xo_rejected (xmodel x) = false) /\
+  (x_action x <> Skip ->
+     xo_result (xmodel x) = Some (plugin_verdict x) /\
+     (xo_result (xmodel x) = Some Pass <-> exists p, x_plugin x = Some p /\ xp_rev_ok p = true) /\
+     (xo_rejected (xmodel x) = true <-> x_action x = Enforce /\ exists p, x_plugin x = Some p /\ xp_rev_ok p = false)).
+Proof.
+  intros Ho. unfold xmodel. rewrite Ho.
+  assert (Hp : exists p, x_plugin x = Some p).
+  { unfold owner in Ho. destruct (x_plugin x) as [p|]; [eauto|discriminate]. }
+  destruct Hp as [p Ep]. unfold plugin_verdict. rewrite Ep.
+  assert (Hex : forall b, (exists q, Some p = Some q /\ xp_rev_ok q = b) <-> xp_rev_ok p = b).
+  { intros b. split; [intros [q [E Hq]]; inversion E; subst q; exact Hq|intros H; exists p; auto]. }
+  destruct (x_action x) eqn:Ea; cbn [xo_calls xo_panic xo_result xo_rejected].
+  3:{ split; [reflexivity|split; [reflexivity|split; [intros _; split; reflexivity|intros Hn; congruence]]]. }
+  all: split; [reflexivity|split; [reflexivity|split; [intros H; discriminate|intros _]]].
+  all: split; [reflexivity|]; rewrite !Hex; destruct (xp_rev_ok p); cbn; split; split; intros; try reflexivity; try discriminate;
+       try tauto; try (split; [reflexivity|reflexivity]).
+  all: try match goal with H : _ /\ _ |- _ => destruct H; discriminate end.
+Qed.
+
+(* a plugin without verification capability: the verification fails before any validation *)
+Lemma xnobody x : owner x = OwnerNobody -> xmodel x = mk_xobs [] None true false.
+Proof. intros Ho. unfold xmodel. rewrite Ho. reflexivity. Qed.
+
+(* notation's own check is performed - the validator consulted - exactly when the level does not
+   skip it and no plugin owns it (and the verification is not refused outright) *)
+Lemma xperformed_iff x : (x_val x = 1 \/ x_val x = 2 \/ x_val x = 3)%N ->
+  (xo_calls (xmodel x) <> [] <-> x_action x <> Skip /\ owner x = OwnerNotation).
+Proof.
+  intros Hv. destruct (owner x) eqn:Ho.
+  - rewrite (xmodel_notation _ Ho). destruct (action_eq_dec (x_action x) Skip) as [Ea|Ha].
+    + rewrite (xmodel_skip _ Ea). cbn. split; [congruence|intros [H _]; congruence].
+    + rewrite (xarguments _ Ha Hv). split; [intros _; auto|discriminate].
+  - destruct (xplugin_owns _ Ho) as [Hc _]. rewrite Hc. split; [congruence|intros [_ H]; discriminate].
+  - rewrite (xnobody _ Ho). cbn. split; [congruence|intros [_ H]; discriminate].
+Qed.
+
+(* a plugin that does not own the check changes nothing about it *)
+Lemma xplugin_irrelevant x : owner x = OwnerNotation ->
+  xmodel x = xmodel (mk_xinput (x_action x) (x_sa x) (x_val x) (x_stime x) (x_chain x) (x_err x) (x_results x)).
+Proof.
+  intros Ho. rewrite (xmodel_notation _ Ho), (xmodel_notation _ (owner_mk_xinput _ _ _ _ _ _ _)).
+  reflexivity.
+Qed.
+
+Lemma xnever_panics_all x : xo_panic (xmodel x) = false.
+Proof.
+  unfold xmodel. destruct (owner x); [apply xnever_panics| |reflexivity].
+  destruct (x_action x); reflexivity.
+Qed.
+
+Lemma xaccept_iff_all x : x_action x = Enforce ->
+  (xo_rejected (xmodel x) = false /\ xo_panic (xmodel x) = false <-> xo_result (xmodel x) = Some Pass).
+Proof.
+  intros Ea. destruct (owner x) eqn:Ho.
+  - rewrite (xmodel_notation _ Ho). apply xaccept_iff, Ea.
+  - unfold xmodel. rewrite Ho, Ea. cbn. destruct (plugin_verdict x); cbn; split; try tauto; try discriminate;
+      intros [H _]; discriminate.
+  - rewrite (xnobody _ Ho). cbn. split; [intros [H _]; discriminate|discriminate].
+Qed.
+
+Lemma rclass_eqb_refl c : rclass_eqb c c = true.
+Proof. destruct c; cbn; try reflexivity; apply String.eqb_refl. Qed.
+
+Lemma xmodel_spec_ok_all x : xspec_ok x (xmodel x) = true.
+Proof.
+  destruct (owner x) eqn:Ho.
+  - rewrite (xspec_notation _ _ Ho), (xmodel_notation _ Ho). apply xmodel_spec_ok.
+  - unfold xspec_ok, xmodel. rewrite Ho. destruct (x_action x); cbn; rewrite ?rclass_eqb_refl, ?eqb_reflx; reflexivity.
+  - unfold xspec_ok. rewrite Ho, (xnobody _ Ho). reflexivity.
+Qed.
+
+Lemma xindependent_all x y :
+  x_action x = x_action y -> x_sa x = x_sa y -> x_val x = x_val y -> x_stime x = x_stime y ->
+  x_chain x = x_chain y -> x_err x = x_err y -> x_plugin x = x_plugin y ->
+  view (x_results x) = view (x_results y) ->
+  xmodel x = xmodel y.
+Proof.
+  intros H1 H2 H3 H4 H5 H6 Hp H7. unfold xmodel, owner, plugin_verdict. rewrite Hp, H1.
+  rewrite (xindependent x y H1 H2 H3 H4 H5 H6 H7). reflexivity.
+Qed.
+
+Lemma xerror_ignores_results_all x rs' : x_err x = true ->
+  xmodel x = xmodel (mk_xinput_p (x_action x) (x_sa x) (x_val x) (x_stime x) (x_chain x) true rs' (x_plugin x)).
+Proof.
+  intros He. unfold xmodel, owner, plugin_verdict. cbn [x_plugin x_action].
+  destruct (match x_plugin x with None => OwnerNotation | Some p => _ end); try reflexivity.
+  unfold xmodel_native, xcalls, xtime. cbn. rewrite He. reflexivity.
+Qed.
+
+Lemma xpass_only_if_v0_refuted_all :
+  exists x, x_action x = Enforce /\ x_err x = false /\ x_val x = 1%N /\ x_plugin x = None /\
+            xo_result (xmodel_v0 x) = Some Pass /\ xo_rejected (xmodel_v0 x) = false /\ xo_panic (xmodel_v0 x) = false /\
+            (exists k s, nth_error (x_chain x) k = Some s /\ nth_error (x_results x) k = None) /\
+            xo_result (xmodel x) = Some Inconclusive /\ xo_rejected (xmodel x) = true.
+Proof.
+  exists (mk_xinput Enforce false 1 (Some 1700000000%Z) ["leaf"; "root"] false []).
+  repeat split. exists 0, "leaf". split; reflexivity.
 Qed.
